@@ -263,6 +263,8 @@ def run(rep, tier):
         init = [show(n["args"][1]) for n in fm.walk() if n.get("k") == "opcall" and n.get("op") == "=" and show(n["args"][0]) in ("out.flags()", "der.flags()")]
         rep.check(len(init) == 2 and all("'o'" in s for s in init), "R12.7", "flags-default", "flags start as 'o'", "csg_resample default flags: %s" % init, fm.loc())
 
+        check_flag_match(rep, fm)
+
     # ---------------------------------------------------------------- R12.8 getInterval
     gi = F.one(T + "Spline::getInterval")
     rep.analysed(gi)
@@ -277,3 +279,66 @@ def run(rep, tier):
     rep.check(hi == ["size(r_) - 2"], "R12.8", "getInterval|above", "r > r_{n-2} -> interval n-2", "Spline::getInterval above the last-but-one knot returns %s" % hi, gi.loc(), sample=True)
     rep.assumptions += ["strictly increasing abscissae; the linear solves (QR) are exact-arithmetic correct (numerical conditioning not decided)",
                         "least-squares optimality of Fit and csg_resample's behaviour on data are not decided"]
+
+
+def check_flag_match(rep, fm):
+    """csg_resample copies the flag of the first input point that is not left of the output point, where 'not left' tolerates rounding of the
+    generated grid.  The search loop's break condition touches the two abscissae only through comparisons: representatives decide that points
+    which agree up to rounding match (also at x = 0, where a tolerance relative to the abscissa collapses), and distinct grid points do not."""
+    from sympy.core.function import AppliedUndef
+    from vsa.cases import decide
+    fo = Fold(fm, inline=False, opaque_types=r"Table").run()
+    st = [e for e in fo.events if e["kind"] == "store" and re.match(r"^\w+\.flags\(\w+\)$", e["target"]) and str(getattr(e["value"], "func", "")) == "flags"]
+    if len(st) < 2:
+        rep.broken("R12.7", "csg_resample: the per-point flag copies were not found")
+        return
+    src = st[0]["value"].args[0]                     # the input table
+    outs = {e["target"].split(".")[0] for e in st}
+    cand = []
+    for l in getattr(fo, "loops", []):
+        for bc, _vals in l.get("breaks", []):
+            xs = [a_ for a_ in _atoms(bc) if str(a_.func) == "x" and len(a_.args) == 2]
+            xin = [a_ for a_ in xs if a_.args[0] == src]
+            xout = [a_ for a_ in xs if str(a_.args[0]) in outs]
+            if xin and xout and len(set(xin)) == 1 and len(set(xout)) == 1:
+                cand.append((l, bc, xin[0], xout[0]))
+    if len(cand) != 1:
+        rep.broken("R12.7", "csg_resample: the search for the input point matching an output point was not found (%d candidates)" % len(cand))
+        return
+    l, bc, xi, xo = cand[0]
+    R = sp.Rational
+    reps = [(R(0), R(11, 10 ** 17), True, "the input point 0 and the generated grid point 1.1e-16"),
+            (R(3, 10), R(3, 10) + R(5, 10 ** 17), True, "0.3 and 0.3 + 5e-17"),
+            (R(-3, 10), R(-3, 10) + R(5, 10 ** 17), True, "-0.3 and -0.3 + 5e-17"),
+            (R(3, 10), R(3, 10) - R(5, 10 ** 17), True, "0.3 and 0.3 - 5e-17"),
+            (R(3, 10), R(6, 10), False, "0.3 and the next grid point 0.6"),
+            (R(0), R(1, 100), False, "0 and the next grid point 0.01")]
+    bad = None
+    for vi, vo, want, txt in reps:
+        sub = {xi: vi, xo: vo}
+        for a_ in _atoms(bc):
+            if str(a_.func) in ("max", "min") and all(x.xreplace(sub).is_number for x in a_.args):
+                sub[a_] = (sp.Max if str(a_.func) == "max" else sp.Min)(*[x.xreplace(sub) for x in a_.args])
+        t = decide(bc, sub, {}, None, getattr(fo, "conds", {}))
+        if t is None:
+            rep.broken("R12.7", "csg_resample: cannot evaluate the match condition %s for %s" % (fo.cond_str(bc)[:160], txt))
+            return
+        if t != want:
+            bad = "%s are %s as the same point by the search condition %s: on the input grid the point takes the flag of %s" % (
+                txt, "NOT recognised" if want else "treated", fo.cond_str(bc)[:200], "its right neighbour" if want else "a different point")
+            break
+    rep.check(bad is None, "R12.7", "flags-match-tolerance", "grid points that agree up to rounding (also at x = 0) are the same point; distinct grid points are not",
+              "csg_resample: %s" % bad, fm.loc(l["node"]), sample=True)
+
+
+def _atoms(c):
+    from sympy.core.function import AppliedUndef
+    out = []
+    stack = [c]
+    while stack:
+        x = stack.pop()
+        if isinstance(x, tuple):
+            stack += [y for y in x[1:]]
+        elif isinstance(x, sp.Basic):
+            out += list(x.atoms(AppliedUndef))
+    return out
